@@ -618,7 +618,7 @@ Proof. exists wit_longpath. vm_compute. split; reflexivity. Qed.
 Definition without (g : Z) : fixes :=
   {| fx_snt := true; fx_dct := true; fx_link := true; fx_nest := true; fx_fmt := true; fx_tag := true; fx_dtov := true;
      fx_rtype := true; fx_dim := true; fx_short := true; fx_sizes := true; fx_rad := true;
-     fx_lfile := negb (g =? 1); fx_lpath := negb (g =? 2); fx_lnosep := negb (g =? 3) |}.
+     fx_lfile := negb (g =? 1); fx_lpath := negb (g =? 2); fx_lnosep := negb (g =? 3); fx_ver := true |}.
 Theorem link_no_separator_refuted :
   exists bs, on_open L bs (fun f r => clean (get_link_path L f (0, 884) 5200 5200) = true /\
                                       is_out (chase_link L f (0, 884)) (OOBW 8)) False /\
@@ -630,6 +630,12 @@ Lemma link_guards_independent :
   on_open repaired wit_longpath (fun f r => chase_link repaired f (0, 884)) (Err 0) = Err 4 /\
   on_open repaired wit_nosep (fun f r => chase_link repaired f (0, 884)) (Err 0) = Err 4.
 Proof. vm_compute. repeat split; reflexivity. Qed.
+
+Theorem version_refuted : exists bs, on_open L bs (fun f r => is_out (database_version L f VER_CAP) (OOBW 9)) False.
+Proof. exists wit_ver. vm_compute. reflexivity. Qed.
+Lemma version_repaired : on_open repaired wit_ver (fun f r => database_version repaired f VER_CAP) (Err 0)
+                         = Ok [65; 68; 70; 32; 68; 97; 116; 97; 98; 97; 115; 101; 32; 86; 101; 114; 115; 105; 111; 110; 32; 66; 48; 50; 48; 49; 50; 88].
+Proof. vm_compute. reflexivity. Qed.
 
 Theorem link_recursion_refuted :
   exists bs, on_open L bs (fun f r => get_node_id_top L f r [76] = Ok (0, 884) /\
@@ -721,11 +727,11 @@ Proof.
   intros n. unfold walk.
   assert (Ho : database_open c wit_cycle = Ok (cyc_f, cyc_root))
     by (unfold cyc_f; destruct Hc as [->| ->]; vm_compute; reflexivity).
-  rewrite Ho. destruct (visit c cyc_f cyc_root 0) as [evs k] eqn:E.
+  rewrite Ho.
+  assert (Hv : clean (database_version c cyc_f VER_CAP) = true) by (unfold cyc_f; destruct Hc as [->| ->]; vm_compute; reflexivity).
+  rewrite Hv. cbn [negb]. destruct (visit c cyc_f cyc_root 0) as [evs k] eqn:E.
   pose proof (cyc_visit 0) as Hk. rewrite E in Hk. simpl in Hk. subst k. cbn [walk_events].
   pose proof (cyc_loop n 1 [(cyc_root, [66], 1)]) as HL.
-  destruct evs as [|e evs]; [exact HL|].
-  change ((e :: evs) ++ ?x) with (e :: evs ++ x).
   rewrite last_cons_app; [exact HL|]. eapply last_nonnil; [exact HL|discriminate].
 Qed.
 End Cycle.
@@ -1544,7 +1550,7 @@ Proof. unfold is_link. apply bind_safe; [apply read_node_header_safe|intros; exa
 Definition ev_safe (e : ev) : Prop :=
   match e with
   | EvN _ r => safe r | EvK0 r => safe r | EvK r => safe r | EvL r => safe r | EvV r => safe r | EvX r => safe r
-  | EvM r => safe r | EvI r => safe r | EvG r => safe r | _ => True
+  | EvM r => safe r | EvI r => safe r | EvG r => safe r | EvVer r => safe r | _ => True
   end.
 
 Lemma Forall_app2 {A} (P : A -> Prop) l1 l2 : Forall P l1 -> Forall P l2 -> Forall P (l1 ++ l2).
@@ -1691,6 +1697,24 @@ Proof.
   destruct (fh_fmt h =? 78); [destruct (beq _ _); [|discriminate]|]; inversion H; subst; cbn; split; (exact Hfmt || reflexivity).
 Qed.
 
+(* repair 20: ADF_Database_Version stays inside the what field, hence inside version[33] *)
+Lemma first_stop_lt : forall s k, first_stop s = Some k -> (k < length s)%nat.
+Proof.
+  induction s as [|c t IH]; intros k H; cbn [first_stop] in H; [discriminate|].
+  destruct (_ || _); [inversion H; subst; simpl; lia|].
+  destruct (first_stop t) as [j|]; [|discriminate]. inversion H; subst. specialize (IH j eq_refl). simpl. lia.
+Qed.
+Lemma database_version_safe f : fa_fmt (f_attr f) < 128 -> safe (database_version R f VER_CAP).
+Proof.
+  intros Hf. unfold database_version. apply bind_safe; [apply read_file_header_safe; exact Hf|intros h _].
+  cbn [fx_ver repaired].
+  set (L := match first_stop (firstn 32 (fh_what h)) with Some k => k | None => length (firstn 32 (fh_what h)) end).
+  assert (HL : (L <= 32)%nat).
+  { unfold L. pose proof (firstn_le_length 32 (fh_what h)). destruct (first_stop _) eqn:E; [apply first_stop_lt in E; lia|lia]. }
+  pose proof (c_string_len (skipn 4 (fh_what h)) (L - 4)) as HC.
+  destruct (Z.gtb_spec (Z.of_nat (length (c_string (skipn 4 (fh_what h)) (L - 4))) + 1) VER_CAP); [unfold VER_CAP in *; lia|exact I].
+Qed.
+
 Definition walk_safe (r : walk_result) : Prop :=
   match r with WOpenFail o => safe o | WOk _ evs => Forall ev_safe evs end.
 
@@ -1701,7 +1725,10 @@ Proof.
   unfold walk. pose proof (database_open_safe bs) as HS. pose proof (database_open_post bs) as HP.
   destruct (database_open R bs) as [[f root]| | | | | | | | |]; cbn [walk_safe bind]; try exact HS; try exact I.
   destruct (HP f root eq_refl) as (Hf & Hlen).
+  pose proof (database_version_safe f Hf) as HVer.
+  destruct (negb (clean (database_version R f VER_CAP))); [constructor; [exact HVer|constructor]|].
   pose proof (visit_safe f Hf Hlen root 0) as HV. destruct (visit R f root 0) as [evs k]. cbn [fst] in HV.
+  constructor; [exact HVer|].
   destruct k as [kids|]; [apply Forall_app2; [exact HV|apply walk_loop_safe; assumption]|exact HV].
 Qed.
 
